@@ -43,6 +43,7 @@ def file_effects(cg: CallGraph, fqs: Set[str]) -> List[str]:
 
 def check(ctx):
     repo = ctx.repo
+    ctx.rule("R19.6", "what the solver's validation reads on the device (terminal data, scales) is recomputed on every access, never memoised (shared with C01 R01.8)", 6)
     ctx.rule("R19.5", "the device snapshot a Solution keeps is independent of the live device: Device.copy copies the layer, the polygons and the probe "
                       "points, so the seed-device comparison sees later edits (shared with C18 R18.3)", 2)
     ctx.rule("R19.4", "validation checks the options, it does not change them (only a solver name is replaced by its enum member)", 1)
@@ -135,6 +136,10 @@ def check(ctx):
     option_ranges(ctx)
     from ..report import Shared
     from . import c18
+    from .c13 import scales_not_memoised
+    scales_not_memoised(Shared(ctx, {"R19.6": "R19.6"},
+                               consequence="a terminal moved or redrawn in place after a first solve is still validated against the remembered terminal data: a "
+                                           "terminal that no longer touches the boundary is accepted, the simulation runs and the output file is written"), "R19.6")
     c18.check(Shared(ctx, {"R18.3": "R19.5"},
                      consequence="the device stored in a Solution follows in-place edits of the live device (e.g. layer.london_lambda): a seed solution computed "
                                  "for other parameters is accepted as matching and the run starts from a state of another problem"))
